@@ -46,7 +46,14 @@ def _ribbon_form(W, F):
 
 
 def run_arith(repo, rep, prop):
+    from engine.switch import NullMachine
     ms = facts.machines(repo)
+    # structural facts are read only off loops in the recognised dispatch form; a restructured loop is decided by the interpreted
+    # layout model (L.m) alone
+    ms = {k: (m if m.exact else NullMachine(m.fn, m.reason)) for k, m in ms.items()}
+    all_exact = all(m.exact for m in ms.values())
+    rep.analysed['machines_shape'] = {k: ('recognised' if m.exact else 'not recognised (%s): decided by the layout model only' % m.reason)
+                                      for k, m in ms.items()}
     params = _pred_params(repo)
     P_W, P_F, P_MIN, P_MAXW, P_STACK = params
     bl = ms['best_layout']
@@ -62,8 +69,10 @@ def run_arith(repo, rep, prop):
         for e in p.events:
             if e[0] == 'set' and e[2] == '=' and e[3] == iv:
                 outcol = e[1]
-    if outcol is None:
+    if outcol is None and bl.exact and hb is not None and not hb.opaque:
         raise AnalysisError('best_layout: cannot identify the output column variable')
+    if outcol is None:
+        outcol = 'outcol'
     # function-level single assignments before the loop (ribbon_width = ...)
     top_env = {}
     for st in blf.node.body:
@@ -83,7 +92,7 @@ def run_arith(repo, rep, prop):
     # ---------------------------------------------------------------- L.b ribbon width
     n = 0
     n += 1
-    rep.check(ribbon_name is not None, prop + '.L.b', 'best_layout:ribbon-width', blf.where,
+    rep.check(ribbon_name is not None or not bl.exact, prop + '.L.b', 'best_layout:ribbon-width', blf.where,
               'ribbon_width = max(0, min(width, round(ribbon_frac * width)))',
               'best_layout no longer computes the ribbon width as max(0, min(width, round(ribbon_frac * '
               'width))) before the loop; assignments found: %s' % {k: src(v) for k, v in top_env.items()},
@@ -133,7 +142,8 @@ def run_arith(repo, rep, prop):
     from . import entrymodel
     n += entrymodel.report(repo, rep, prop + '.L.b', lambda k: k.startswith('layout:') or k.endswith(':single-path'),
                            'the width / ribbon the caller asked for does not reach the layout')
-    rep.floor(prop + '.L.b', n, 6)
+    if all_exact:
+        rep.floor(prop + '.L.b', n, 6)
 
     # ---------------------------------------------------------------- L.a available width
     n = 0
@@ -168,11 +178,11 @@ def run_arith(repo, rep, prop):
         return kw
 
     gb = bl.branch('Group')
-    if gb is None:
+    if gb is None and bl.exact:
         raise AnalysisError('best_layout has no Group branch')
     seen_group_call = False
     predname = blf.params[3]
-    for p in gb.paths:
+    for p in (gb.paths if gb is not None else []):
         calls = [e for e in p.events if e[0] == 'call' and e[1] in (predname, 'smart_fitting_predicate', 'fast_fitting_predicate')]
         for c in calls:
             if seen_group_call:
@@ -201,8 +211,9 @@ def run_arith(repo, rep, prop):
                       'predicate runs on a copy of the live stack plus the group in flat mode',
                       'the stack given to the predicate at the group decision is %s; it must be a copy of the '
                       'live stack (rest of the line) with (indent, FLAT_MODE, doc.doc) pushed' % st, nontrivial=True)
-    rep.check(seen_group_call, prop + '.L.a', 'best_layout:group:predicate-called', '%s:%d' % (blf.module.relpath, gb.lineno),
-              'group decision consults the predicate', 'the Group branch does not call the fitting predicate')
+    if gb is not None and not gb.opaque:
+        rep.check(seen_group_call, prop + '.L.a', 'best_layout:group:predicate-called', '%s:%d' % (blf.module.relpath, gb.lineno),
+                  'group decision consults the predicate', 'the Group branch does not call the fitting predicate')
     fb = bl.branch('Fill')
     fill_calls = 0
     seen = set()
@@ -213,12 +224,15 @@ def run_arith(repo, rep, prop):
                 fill_calls += 1
                 n += 1
                 check_pred_call(c, 'fill@%d' % fill_calls, False)
-    rep.floor(prop + '.L.a', n, 2)
+    if all_exact:
+        rep.floor(prop + '.L.a', n, 2)
 
     # ---------------------------------------------------------------- L.c budget discipline
     n = 0
     for name in ('fast_fitting_predicate', 'smart_fitting_predicate'):
         m = ms[name]
+        if not m.exact:
+            continue
         fn = m.fn
         rel = fn.module.relpath
         # budget initialised from max_width before the loop
@@ -307,12 +321,15 @@ def run_arith(repo, rep, prop):
                 ok = True
         rep.check(ok, prop + '.L.c', '%s:empty-stack-fits' % name, '%s:%d' % (rel, m.loop.lineno),
                   'nothing left to place fits', '%s lost the "stack empty -> fits" exit' % name)
-    rep.floor(prop + '.L.c', n, 12)
+    if all_exact:
+        rep.floor(prop + '.L.c', n, 12)
 
     # ---------------------------------------------------------------- L.e forced breaks
     n = 0
     for name in ('fast_fitting_predicate', 'smart_fitting_predicate'):
         m = ms[name]
+        if not m.exact:
+            continue
         b = m.branch('AlwaysBreak')
         n += 1
         ok = b is not None and all(p.end == 'return' and p.events and p.events[0][0] == 'return'
@@ -360,7 +377,8 @@ def run_arith(repo, rep, prop):
             rep.check(not bad, prop + '.L.e', '%s:forced-break-config-independent' % fname,
                       '%s:%d' % (pp.relpath, s.lineno), 'forced break does not depend on the layout configuration',
                       'the always_break/group choice in %s depends on %s' % (fname, sorted(bad)), nontrivial=True)
-    rep.floor(prop + '.L.e', n, 4)
+    if all_exact:
+        rep.floor(prop + '.L.e', n, 4)
 
     # ---------------------------------------------------------------- L.g strategy wiring
     n = 0
